@@ -56,6 +56,19 @@ CLAIMED = {
         "property-based testing (Hypothesis, scripted randomness) against a reference step model + bounded-exhaustive small profiles",
         "3/C02",
     ),
+    "C03": (
+        "Direct fractional_transfer / random_transfer calls on generated ballot lists (duplicates, exhausted "
+        "ballots, ballots not led by the winner, winner listed lower; caller precondition fpv = real tally) are "
+        "compared with the definition: exact ranking->weight map for the fractional rule; for the random rule "
+        "whole-ballot sub-collection, per-ranking bounds and exact surplus size, plus a chi-square test of the "
+        "selection against the multivariate hypergeometric law over seeded repetitions.  Whole STV counts with "
+        "either rule are balanced round by round from the recorded entering/leaving profiles (threshold per "
+        "quota-elected candidate + exhausted weight; weight never increases).",
+        "Trusts the harness's balance arithmetic; uniformity decided at 1e-9/tests per run; the random rule is "
+        "read as sampling among the winner's transferable ballots.",
+        "property-based testing (Hypothesis) against the transfer definitions, round-by-round conservation invariant, chi-square GOF for the random selection",
+        "3/C03",
+    ),
 }
 
 PENDING_REASON = "check not built yet in this session; the design (DESIGN.md section 3) claims it and it will be registered once it is quiet on the unchanged tree and catches its mutants"
